@@ -13,7 +13,7 @@ import (
 	"astverif/ssau"
 )
 
-// C07 runs the clauses I1–I5 of property C07.
+// C07 runs the clauses I1–I6 of property C07 (I6 = the filters-first rule shared with C06; I7 is ownership.BorrowTaint, called from props).
 func (a *A) C07() {
 	a.keyedByPID()
 	a.globalsReadOnly()
@@ -21,6 +21,7 @@ func (a *A) C07() {
 	a.pooledBufferConfined()
 	a.mapIterationDeterminism()
 	a.firstPacketIdentity()
+	a.filtersFirst()
 }
 
 func stripConvert(v ssa.Value) ssa.Value {
